@@ -26,6 +26,9 @@ type c03Env struct {
 type c03Sc struct {
 	Prog *Program `json:"prog"`
 	Envs []c03Env `json:"envs"`
+	// TwoLoaders: the templates come from a first loader; a second loader has OTHER content under the same names
+	// (registration order decides, whatever the engine does internally to find them)
+	TwoLoaders bool `json:"two_loaders,omitempty"`
 }
 
 type propC03 struct{}
@@ -92,6 +95,7 @@ func genC03Program(r *R, ex map[string]bool) *Program {
 		return &Val{T: "map", M: []KV{{"b", num(b)}, {"a", num(a)}, {"d", str(d)}, {"c", num(c)}}}
 	}
 	ctx.M = append(ctx.M, KV{"zam", &Val{T: "map", M: []KV{{"m", str("vm")}, {"z", str("vz")}, {"a", str("va")}}}})
+	ctx.M = append(ctx.M, KV{"acct", &Val{T: "account", S: "alice", I: 3}})
 	ctx.M = append(ctx.M, KV{"rows", &Val{T: "list", L: []*Val{row(1, 9, 5, "x"), row(2, 3, 5, "w"), row(0, 7, 6, "z"), row(2, 1, 4, "y")}}})
 	maps := []string{"m1", "m2", "mi", "p1.Meta", "nm", "nm.b", "si", "mx", "cs", "cs2", "fm", "bm", "km", "gm", "gp.Meta", "em", "nk", "tie", "ties", "tie", "ties"}
 	// what this engine can do with which map (anything else ends the render in an error or a recovered panic, the
@@ -131,7 +135,7 @@ func genC03Program(r *R, ex map[string]bool) *Program {
 		return pick(r, maps)
 	}
 	seg := func() string {
-		switch r.N(24) {
+		switch r.N(25) {
 		case 0, 1:
 			return "{% for k, v in " + anyMap() + " %}{{ k }}={{ v|json_encode }}|{{ loop.index }};{% endfor %}"
 		case 2:
@@ -212,6 +216,9 @@ func genC03Program(r *R, ex map[string]bool) *Program {
 			// a hash literal written out of order, and a caller's map with exactly the same key set, in one render
 			lit := pick(r, []string{"{'z': 1, 'm': 2, 'a': 3}", "{'m': n1, 'z': s1, 'a': 0}", "{'z': 'Z', 'a': 'A', 'm': 'M'}"})
 			return "{% for k, v in " + lit + " %}{{ k }}{% endfor %}{{ (" + lit + ")|keys|join('') }}{% for k, v in zam %}{{ k }}={{ v }};{% endfor %}{{ zam|first }}{{ zam|keys|join(',') }}{{ zam|merge(" + lit + ")|keys|join(',') }}"
+		case 24:
+			// fields promoted from an embedded struct, looked up more than once
+			return "{{ acct.Nick }}{{ acct.Rank }}|{{ acct.Plan }}|{{ acct.Profile.Nick }}{{ acct." + pick(r, []string{"Nick", "Rank", "Plan"}) + " }}{{ acct|json_encode }}"
 		case 22:
 			// the same name bound twice in one construct: which binding wins must be decided by the source text
 			return pick(r, []string{
@@ -248,6 +255,7 @@ func genC03Program(r *R, ex map[string]bool) *Program {
 func (propC03) Gen(seed uint64, ex map[string]bool) interface{} {
 	r := newR(seed)
 	sc := &c03Sc{Prog: genC03Program(r, ex)}
+	sc.TwoLoaders = r.P(20)
 	base := c03Env{Dim: "baseline", MapOrder: simrt.OrderSorted, Clock: 1_700_000_000e9, Pool: simrt.PoolLIFO, Seed: simrt.Mix(seed, 9), Addr: -1}
 	sc.Envs = append(sc.Envs, base)
 	add := func(dim string, f func(e *c03Env)) {
@@ -257,6 +265,8 @@ func (propC03) Gen(seed uint64, ex map[string]bool) interface{} {
 		f(&e)
 		sc.Envs = append(sc.Envs, e)
 	}
+	add("goroutine-schedule", func(e *c03Env) {}) // nothing differs but the seed that schedules goroutines the library may start
+	add("goroutine-schedule", func(e *c03Env) {})
 	add("memory-addresses", func(e *c03Env) { e.Addr = 100 }) // same environment, freshly allocated context and engine, eager address reuse
 	add("memory-addresses", func(e *c03Env) { e.Addr = 50 })
 	add("map-order", func(e *c03Env) { e.MapOrder = simrt.OrderReverse })
@@ -281,8 +291,11 @@ func (propC03) Gen(seed uint64, ex map[string]bool) interface{} {
 	return sc
 }
 
-func c03Render(p *Program, env c03Env) (Obs, *simrt.World) {
-	w := simrt.Begin(simrt.Config{Seed: env.Seed, PoolPolicy: env.Pool, MapOrder: env.MapOrder, MapRot: env.Rot, ClockStart: env.Clock, ClockStep: 1e6, AddrReusePct: env.Addr})
+// c03Render renders the program twice on one engine in one environment (the second render runs on recycled
+// objects and warm process-wide caches) and returns both observations. The renders run as a task of the seeded
+// scheduler, so goroutines the library might start are interleaved by the environment's seed, not by the machine.
+func c03Render(p *Program, env c03Env, twoLoaders bool) (Obs, Obs, *simrt.World) {
+	w := simrt.Begin(simrt.Config{Seed: env.Seed, PoolPolicy: env.Pool, MapOrder: env.MapOrder, MapRot: env.Rot, ClockStart: env.Clock, ClockStep: 1e6, AddrReusePct: env.Addr, PreemptDen: 3})
 	defer simrt.End()
 	twig.SetDebugWriter(io.Discard)
 	saved := twig.VerifSwapGlobals(nil)
@@ -290,14 +303,28 @@ func c03Render(p *Program, env c03Env) (Obs, *simrt.World) {
 	e := twig.New()
 	installSandbox(e)
 	installGlobals(e)
-	for _, t := range p.Templates {
-		e.RegisterString(t.Name, t.Src())
+	if twoLoaders {
+		first, second := map[string]string{}, map[string]string{}
+		for _, t := range p.Templates {
+			first[t.Name] = t.Src()
+			second[t.Name] = "SHADOWED-BY-AN-EARLIER-LOADER " + t.Name
+		}
+		e.RegisterLoader(twig.NewArrayLoader(first))
+		e.RegisterLoader(twig.NewArrayLoader(second))
+	} else {
+		for _, t := range p.Templates {
+			e.RegisterString(t.Name, t.Src())
+		}
 	}
 	ctx := BuildCtx(p.Ctx, env.Build)
-	// warm the pools so that recycled objects exist, then render for real
-	observe(nil, func() (string, error) { return e.Render(p.Main, ctx) })
-	o := observe(nil, func() (string, error) { return e.Render(p.Main, ctx) })
-	return o, w
+	var o1, o2 Obs
+	if ab := w.RunOne(func() {
+		o1 = observe(nil, func() (string, error) { return e.Render(p.Main, ctx) })
+		o2 = observe(nil, func() (string, error) { return e.Render(p.Main, ctx) })
+	}); ab != "" {
+		o2 = Obs{Class: "aborted", Err: ab}
+	}
+	return o1, o2, w
 }
 
 func (propC03) Run(scI interface{}) *Outcome {
@@ -306,9 +333,16 @@ func (propC03) Run(scI interface{}) *Outcome {
 	var base Obs
 	fp := uint64(0xcbf29ce484222325)
 	for i, env := range sc.Envs {
-		got, w := c03Render(sc.Prog, env)
+		first, got, w := c03Render(sc.Prog, env, sc.TwoLoaders)
 		for j := range o.Stats {
 			o.Stats[j] += w.Stat[j]
+		}
+		o.Probes["renders_repeated"]++
+		if first.Key() != got.Key() {
+			o.FP = simrt.Mix(fp, w.Fingerprint(), strHash(got.Key()))
+			o.Viol = &Violation{Oracle: "render-again", Sig: "rendering again in the same process gives different output",
+				Detail: fmt.Sprintf("template %q (env #%d %+v)\n first render:  %s\n second render: %s", sc.Prog.Sources()[sc.Prog.Main], i, env, first, got)}
+			return o
 		}
 		o.SimNS += w.NowNS() - env.Clock
 		fp = simrt.Mix(fp, w.Fingerprint(), strHash(got.Key()))
